@@ -44,7 +44,7 @@ theorem capParse_np (c : Cur) : capParse c ≠ .panic := by
   have hcc := capContent_np
   np_auto
 
-theorem capLoop_np (limit f : Nat) (c : Cur) : capLoop limit f c ≠ .panic := by
+theorem capLoop_np (f : Nat) (c : Cur) : capLoop f c ≠ .panic := by
   induction f generalizing c with
   | zero => simp [capLoop]
   | succ f ih =>
